@@ -29,8 +29,21 @@ PROXY = ("proxy", 3128)
 # ------------------------------------------------------------------ outcome alphabet (per attempt)
 
 
-def att(connect="ok", send="ok", head=None, body=0, stray=0, after="silent", seg=0):
-    return {"connect": connect, "send": send, "head": head, "body": body, "stray": stray, "after": after, "seg": seg}
+def att(connect="ok", send="ok", head=None, body=0, stray=0, after="silent", seg=0, chunks=None, trailers=(), hold=0,
+        smuggle=False):
+    """one attempt of the environment script.  `chunks`: chunk sizes (each 1..15, summing up to `body`) of a
+    `Transfer-Encoding: chunked` reply, `trailers`: content lengths of its trailer lines, `hold`: the last `hold`
+    bytes of what follows the head (body / chunk framing / trailer section / stray bytes) are held back by the server
+    and only delivered when the next request arrives on that connection (before that request's own reply)"""
+    a = {"connect": connect, "send": send, "head": head, "body": body, "stray": stray, "after": after, "seg": seg}
+    if chunks is not None:
+        a["chunks"] = list(chunks)
+        a["trailers"] = list(trailers)
+        if smuggle:
+            a["smuggle"] = True
+    if hold:
+        a["hold"] = hold
+    return a
 
 
 def hd(status=200, close=False, cl="auto", loc=False, ra=False):
@@ -126,6 +139,51 @@ def stray_bytes(n: int) -> bytes:
     return (STRAY * (n // len(STRAY) + 1))[:n]
 
 
+SMUGGLE_LINES = [b"HTTP/1.1 200 OK", b"Content-Length: 6"]
+
+
+def trailer_lines(a: dict):
+    """the trailer fields of a chunked reply: opaque `X-T<i>: ...` lines of the scripted lengths; with `smuggle` the
+    second and third line are a status line and a Content-Length field (trailer smuggling)"""
+    out = []
+    for i, m in enumerate(a.get("trailers", ())):
+        if a.get("smuggle") and 1 <= i <= len(SMUGGLE_LINES):
+            out.append(SMUGGLE_LINES[i - 1])
+        else:
+            out.append((b"X-T%d: " % i + b"abcdefghijklmnopqrstuvwxyz")[:max(m, 1)])
+    return out
+
+
+def chunked_wire(a: dict, body: bytes) -> bytes:
+    """the chunked coding of `body`: the scripted chunk sizes, what is left over as one more chunk, the last-chunk,
+    the trailer section and the empty line"""
+    out, pos = b"", 0
+    for n in a["chunks"]:
+        if n <= 0 or pos >= len(body):
+            continue
+        piece = body[pos:pos + n]
+        out += b"%x\r\n" % len(piece) + piece + b"\r\n"
+        pos += len(piece)
+    if pos < len(body):
+        out += b"%x\r\n" % (len(body) - pos) + body[pos:] + b"\r\n"
+    out += b"0\r\n"
+    for ln in trailer_lines(a):
+        out += ln + b"\r\n"
+    return out + b"\r\n"
+
+
+def is_chunked(a: dict) -> bool:
+    return isinstance(a.get("head"), dict) and a.get("chunks") is not None
+
+
+def split_reply(rid: int, j: int, a: dict, method: str):
+    """(bytes sent at once, bytes held back until the next request arrives on the connection)"""
+    head, body, stray, _ = build_reply(rid, j, a, method)
+    post = (chunked_wire(a, body) if is_chunked(a) else body) + stray
+    hold = min(a.get("hold", 0), len(post)) if head else 0
+    return head + post[:len(post) - hold], post[len(post) - hold:]
+
+
 def build_reply(rid: int, j: int, a: dict, method: str):
     """(head bytes, body bytes, stray bytes, model head token)"""
     h = a["head"]
@@ -137,7 +195,11 @@ def build_reply(rid: int, j: int, a: dict, method: str):
     cl = h["cl"]
     if cl == "auto":
         cl = len(body)
+    if is_chunked(a):
+        cl = None
     lines = ["HTTP/1.1 %d X" % h["status"]]
+    if is_chunked(a):
+        lines.append("Transfer-Encoding: chunked")
     if cl is not None:
         lines.append("Content-Length: %d" % cl)
     if h["close"]:
@@ -308,12 +370,15 @@ class World:
         declared = len(body) if cl == "auto" else cl
         nobody = isinstance(a["head"], dict) and (a["head"]["status"] in (204, 304) or 100 <= a["head"]["status"] < 200
                                                   or req.method == "HEAD")
+        now, tail = split_reply(rid, j, a, req.method)
+        # what the server held back of the previous reply arrives now, before this request's own reply
+        late, peer.held = peer.held, tail
         self.sock_history[peer.sid] = {
             "rid": rid,
-            "unclean": (not isinstance(a["head"], dict)) or a["after"] != "silent" or a["head"]["close"]
-                       or (not nobody and (declared is None or declared != len(body)))}
-        if head or body or stray:
-            peer.reply(head + body + stray)
+            "unclean": (not isinstance(a["head"], dict)) or a["after"] != "silent" or a["head"]["close"] or bool(tail)
+                       or (not nobody and not is_chunked(a) and (declared is None or declared != len(body)))}
+        if late or now:
+            peer.reply(late + now)
         af = a["after"]
         if af == "fin":
             peer.close()
@@ -437,6 +502,16 @@ def how_token(how):
     return k
 
 
+def uses_extended(case) -> bool:
+    """chunked framing / delayed delivery somewhere in the scripts (oracle only until the model has them)"""
+    for op in case["ops"]:
+        if op["op"] == "req":
+            for a in op["script"]:
+                if isinstance(a, dict) and (a.get("chunks") is not None or a.get("hold")):
+                    return True
+    return False
+
+
 class RetryTime(types.SimpleNamespace):
     pass
 
@@ -449,7 +524,7 @@ def run_history(case, res, check_c01=True, check_c03=False, pid="C01"):
     cfg = case["cfg"]
     w = World(cfg)
     lines, out = [], []
-    modelled = cfg["proxy"] in MODELLED
+    modelled = cfg["proxy"] in MODELLED and not uses_extended(case)
     lines.append("new %d %d %d" % (cfg["maxsize"], int(cfg["block"]), int(cfg["proxy"] == "forward")))
     out.append("ok")
     failures = []
